@@ -104,13 +104,12 @@ Qed.
 Theorem typed_col_correct : forall t rows j ty,
   table_ok t rows -> rows <> [] -> 0 <= j -> (forall r, In r rows -> j < len r) ->
   (forall r, In r rows -> wf_field ty (field r j) = true) ->
-  (ty = TSid -> exists r, In r rows /\ field r j <> []) ->
   typed_col t j ty = spec_col rows (j, ty).
 Proof.
-  intros t rows j ty Hok Hne Hj Hl Hwf Hsid.
+  intros t rows j ty Hok Hne Hj Hl Hwf.
   destruct ty; try (exfalso; destruct rows as [|r0 rows']; [congruence|specialize (Hwf r0 (or_introl eq_refl)); discriminate]).
   - apply str_col_correct; assumption.
-  - apply sid_col_correct; try assumption. apply Hsid. reflexivity.
+  - apply sid_col_correct; assumption.
   - apply int_col_correct; assumption.
   - apply intm1_col_correct; assumption.
   - (* Optional[int], repaired wrapper *)
@@ -158,8 +157,7 @@ Definition extra_cols (f : format) : list (Z * ctype) := match f with Fvcf => [(
 Definition all_cols (f : format) : list (Z * ctype) := schema f ++ extra_cols f.
 (* what "well-formed for column (j, ty)" means for a list of records with n fields *)
 Definition col_wf (rows : list (list (list Z))) (n : Z) (jt : Z * ctype) : Prop :=
-  0 <= fst jt < n /\ (forall r, In r rows -> wf_field (snd jt) (field r (fst jt)) = true)
-  /\ (snd jt = TSid -> exists r, In r rows /\ field r (fst jt) <> []).
+  0 <= fst jt < n /\ (forall r, In r rows -> wf_field (snd jt) (field r (fst jt)) = true).
 
 Lemma run_cols_delim f t : delim_format f = true ->
   run_cols f None t = map (fun jt => typed_col t (fst jt) (snd jt)) (all_cols f).
@@ -186,7 +184,7 @@ Proof.
   exists t. split.
   - unfold run. rewrite Hc, skip_header_correct by (try assumption; lia). rewrite Ht, Htab.
     destruct f; try discriminate; cbn [eager_format andb]; rewrite Hl; reflexivity.
-  - intros [j ty] [Hj [Hwf Hsid]]. cbn [fst snd] in *.
+  - intros [j ty] [Hj Hwf]. cbn [fst snd] in *.
     apply typed_col_correct; try assumption; try lia.
     intros r Hr. destruct (H r Hr) as [E _]. lia.
 Qed.
@@ -210,7 +208,7 @@ Proof.
   destruct (table_of_rows crlf n rows Hn Hne H) as [t [Htab [Hok Hl]]].
   assert (Hcols : run_cols f None t = spec_cols f None rows).
   { rewrite run_cols_delim, spec_cols_delim by assumption. apply map_ext_in. intros [j ty] Hin.
-    destruct (Hwf _ Hin) as [Hj [Hw Hsid]]. cbn [fst snd] in *.
+    destruct (Hwf _ Hin) as [Hj Hw]. cbn [fst snd] in *.
     apply typed_col_correct; try assumption; try lia.
     intros r Hr. destruct (H r Hr) as [E _]. lia. }
   unfold run. rewrite Hc, skip_header_correct by (try assumption; lia). rewrite Ht, Htab, Hcols, Hl.
